@@ -1,6 +1,7 @@
 import CfrVerif.Proofs.Transforms
 import CfrVerif.Proofs.WellFormed
 import CfrVerif.Props.C01
+import CfrVerif.Proofs.InvShiftSwapLemmas
 /-!
 # C12, part 3: adding a constant to the payoffs; exchanging the players
 -/
@@ -16,14 +17,19 @@ theorem getInfo_swap (g : Game α) (σ : Bool → Strat α) :
     (getInfo g.swap (fun one => σ (!one))).util = -(getInfo g σ).util ∧
     (getInfo g.swap (fun one => σ (!one))).regretOne = (getInfo g σ).regretTwo ∧
     (getInfo g.swap (fun one => σ (!one))).regretTwo = (getInfo g σ).regretOne := by
-  sorry
+  have he : expected g.swap.chance (fun one => σ (!one)) g.swap.root = -expected g.chance σ g.root :=
+    expected_swap g.chance σ g.root
+  simp only [getInfo, he, optimalDeviations_swap, Bool.not_true, Bool.not_false, sub_neg_eq_add,
+    ← sub_eq_add_neg, true_and]
 
 /-- **the unsampled solver on the mirrored game** returns the mirrored result: exchanged
 strategies and bounds, the same number of iterations (every game, parameters, budget, threshold) -/
 theorem solve_full_swap [Transc α] (g : Game α) (p : RegretParams α) (draw : DrawFn α) (T : Nat)
     (thr : Option (Ext α)) :
     solveVanillaSingle g.swap false p draw T thr = (solveVanillaSingle g false p draw T thr).swap := by
-  sorry
+  unfold solveVanillaSingle solveWith
+  exact solveLoop_swap (vanillaIter g false p draw) (vanillaIter g.swap false p draw) thr
+    (vanillaIter_swap g p draw) T 1 (SolveSt.init g) .posInf .posInf []
 end Swap
 
 section Shift
@@ -35,14 +41,30 @@ theorem getInfo_shift (k : α) (g : Game α) (hg : GameWF g) (σ : Profile α) (
     (getInfo (g.mapPay (fun x => x + k)) σ).util = (getInfo g σ).util + k ∧
     (getInfo (g.mapPay (fun x => x + k)) σ).regretOne = (getInfo g σ).regretOne ∧
     (getInfo (g.mapPay (fun x => x + k)) σ).regretTwo = (getInfo g σ).regretTwo := by
-  sorry
+  have he : expected (g.mapPay (fun x => x + k)).chance σ (g.mapPay (fun x => x + k)).root
+      = expected g.chance σ g.root + k :=
+    expected_shift k g (fun ps hps => (hg.chancePos ps hps).2) σ hσ g.root hg.nodes
+  have h1 := optimalDeviations_shift k g hg σ hσ true
+  have h2 := optimalDeviations_shift k g hg σ hσ false
+  simp only [Bool.not_true, Bool.not_false, sg, if_true, Bool.false_eq_true, if_false] at h1 h2
+  simp only [getInfo, he, h1, h2, true_and]
+  constructor
+  · congr 1; ring
+  · congr 1; ring
 
 /-- **the unsampled solver ignores a payoff shift** -/
 theorem solve_full_shift (k : ℝ) (g : Game ℝ) (hg : GameWF g) (p : RegretParams ℝ)
     (draw : DrawFn ℝ) (T : Nat) (thr : Option (Ext ℝ)) :
     solveVanillaSingle (g.mapPay (fun x => x + k)) false p draw T thr
       = solveVanillaSingle g false p draw T thr := by
-  sorry
+  have hp : 0 ≤ p.clampStrat.strat := le_max_right _ _
+  unfold solveVanillaSingle solveWith
+  rw [← vanillaIter_clamp g false p draw, ← vanillaIter_clamp (g.mapPay (fun x => x + k)) false p draw]
+  exact solveLoop_congr (vanillaIter g false p.clampStrat draw)
+    (vanillaIter (g.mapPay (fun x => x + k)) false p.clampStrat draw) thr (StOK g)
+    (fun it s log hs => ⟨vanillaIter_shift k g hg p.clampStrat draw it s log hs,
+      (vanillaIter_ok g false p.clampStrat hp draw it s log hs).1⟩)
+    T 1 (SolveSt.init g) .posInf .posInf [] (stOK_init g hg)
 end Shift
 
 end Cfr
